@@ -1009,3 +1009,30 @@ pub fn replay_asm(a: &Args, out: &mut Out) {
         out.emit(rec);
     }
 }
+
+
+/// `lc3v replay txt hist=<file>`: every text printed by MC_TxtFormat (RP configuration) through the real text reader;
+/// the view of what it built and what the real text writer makes of that.
+pub fn replay_txt(a: &Args, out: &mut Out) {
+    let hist = std::fs::read_to_string(a.get_str("hist", "")).expect("hist file");
+    let mut run = 0u64;
+    for line in hist.lines() {
+        if line.trim().is_empty() { continue; }
+        let b: Vec<u8> = serde_json::from_str::<Vec<u64>>(line).expect("history").iter().map(|&x| x as u8).collect();
+        let Ok(text) = String::from_utf8(b.clone()) else { continue };
+        run += 1;
+        let mut rec = json!({"ev": "Fmt", "kind": "txtread", "run": run, "panic": 0, "input": js::bytes(&b)});
+        match js::guard(|| TextFormat::deserialize(&text)) {
+            Err(()) => { rec["deser"] = json!("panic"); rec["panic"] = json!(1); rec["view"] = fmt_view_none(); rec["again"] = json!([]); }
+            Ok(None) => { rec["deser"] = json!("reject"); rec["view"] = fmt_view_none(); rec["again"] = json!([]); }
+            Ok(Some(o)) => {
+                rec["deser"] = json!("accept");
+                match js::guard(|| (fmt_view(&o), TextFormat::serialize(&o))) {
+                    Err(()) => { rec["panic"] = json!(1); rec["view"] = fmt_view_none(); rec["again"] = json!([]); }
+                    Ok((v, t2)) => { rec["view"] = v; rec["again"] = js::bytes(t2.as_bytes()); }
+                }
+            }
+        }
+        out.emit(rec);
+    }
+}
